@@ -190,6 +190,7 @@ type engine struct {
 	sendBlocked  map[int]int
 	allocWaiting int32 // free mode: reservations that were not granted at once and are still waiting
 	allocRefused map[int]int // free mode: waiting reservations the allocator refused, per peer
+	allocWaitingBy map[int]int // free mode: reservations waiting for memory, per peer
 	lateBuild    map[int]int // free mode: messages built on a queue after its Shutdown was called, per peer
 
 	alloc *allocWrap
@@ -395,6 +396,12 @@ func (m *mqWatch) AllocateAndBuildMessage(size uint64, fn func(*messagequeue.Bui
 	})
 }
 
+func (e *engine) waitingFor(p int) int {
+	e.gateMu.Lock()
+	defer e.gateMu.Unlock()
+	return e.allocWaitingBy[p]
+}
+
 func (e *engine) lateBuilds(p int) int {
 	e.gateMu.Lock()
 	defer e.gateMu.Unlock()
@@ -421,12 +428,18 @@ func (a *allocWrap) AllocateBlockMemory(p peer.ID, amount uint64) <-chan error {
 		default:
 		}
 		atomic.AddInt32(&a.e.allocWaiting, 1)
+		a.e.gateMu.Lock()
+		a.e.allocWaitingBy[peerIdx(p)]++
+		a.e.gateMu.Unlock()
 		a.e.signalEv()
 		out := make(chan error, 1)
 		go func() {
 			select {
 			case err := <-ch:
 				atomic.AddInt32(&a.e.allocWaiting, -1)
+				a.e.gateMu.Lock()
+				a.e.allocWaitingBy[peerIdx(p)]--
+				a.e.gateMu.Unlock()
 				if err != nil {
 					// the allocator refused a waiting reservation (ReleasePeerMemory at queue shutdown)
 					a.e.gateMu.Lock()
@@ -546,6 +559,7 @@ func newEngineOpts(npeers int, limit uint64, maxPerPeer int, nWorkers int, free 
 	e.free, e.stalledPeers = free, stalled
 	e.gateMode, e.gateCh, e.sendBlocked = map[int]string{}, map[int]chan struct{}{}, map[int]int{}
 	e.allocRefused = map[int]int{}
+	e.allocWaitingBy = map[int]int{}
 	e.lateBuild = map[int]int{}
 	if free {
 		e.evCh = make(chan struct{}, 1)
